@@ -94,7 +94,7 @@ def main():
             "quick_cmd": f"./check {pid} quick",
             "thorough_cmd": f"./check {pid} thorough",
             "evidence_file": f"/verif/evidence/{pid}.json",
-            "replay_cmd_template": "cat {path}",
+            "replay_cmd_template": f"./check {pid} --replay {{path}}",
             "engine": "compass-verif",
             "level_claimed": {"category": "exploration", "text": text, "design_ref": f"DESIGN.md section {ref}"},
             "level_note": note,
